@@ -197,6 +197,24 @@ BUILT = {
              "at the end are not in the vocabulary. Trusted: TLC, the counting allocator of the harness.",
         technique="TLA+ refcount/COW protocol model (Cow) + TLC bounded model checking with replay under a counting "
                   "allocator + TLC trace validation of random workloads"),
+    "C17": dict(
+        cat="translation_validation", design="DESIGN.md §4 C17",
+        text="spec/Lang.tla defines freeze as a source-to-source translation (Frz): every identifier that the evaluator's "
+             "own scoping rules do not bind inside the expression is resolved once and replaced by its value; it fails "
+             "when a free identifier is unbound or the expression writes to a variable it does not declare. Each "
+             "generated closed lambda L is validated three ways against it in the real interpreter: L(args), "
+             "(freeze L)(args), and (freeze L)(args) again after every outer variable and function was reassigned "
+             "(plus L(args) afterwards) - value, printed output, outcome class and globals must equal the "
+             "specification's prediction, and freeze must fail exactly when the specification says so. In addition "
+             "TLC explores every history of <=3/4 statements over a 25-statement freeze vocabulary (free variables "
+             "and functions, later reassignment, unbound names, writes to outer variables, local shadowing, loops / "
+             "try / while / nested lambdas / defaults inside frozen code) and every transition is replayed.",
+        note="Bodies come from the C05 program generator restricted to declare-before-use (names declared in one branch "
+             "of an if are not used outside it: their boundness is path dependent). Operators inside frozen code keep "
+             "being resolved by name (rebinding operators / precedences is not generated). Known finding: a local "
+             "declaration whose initialiser reads the outer variable it shadows.",
+        technique="TLA+ definition of freeze as a translation on Lang ASTs + three-way translation validation of generated "
+                  "lambdas by TLC trace validation + TLC bounded exploration of freeze statement histories with replay"),
 }
 PENDING = "check not built yet in this round (planned, see DESIGN.md section 4 and 9)"
 ALL = ["C%02d" % i for i in range(1, 18)]
